@@ -43,3 +43,32 @@ func H_C09_NilCb() {
 	})
 	_ = r1
 }
+
+// H_C09_EarlyReleased: the resolver invalidates the value it is about to return (it calls
+// released() before its own call has returned). released() makes the value be dropped and
+// resolved afresh: the resolver is called a second time and the reference ends up with the
+// second value, not with the stale first one.
+func H_C09_EarlyReleased() {
+	var calls, last int
+	var lastResolved bool
+	resolver := func(ctx context.Context, released func()) (int, func(), error) {
+		var n int
+		vrt.Atomic(func() { calls++; n = calls })
+		if n == 1 {
+			released()
+		}
+		return n, nil, nil
+	}
+	rc := refcount.NewRefCount[int](context.Background(), false, nil, nil, resolver)
+	rc.AddRef(func(resolved bool, val int, err error) {
+		vrt.Atomic(func() { lastResolved, last = resolved, val })
+	})
+	vrt.AtQuiescence(func() {
+		var n, v int
+		var ok bool
+		vrt.Atomic(func() { n, v, ok = calls, last, lastResolved })
+		vrt.Assert(n >= 2, "released-value-not-resolved-afresh")
+		vrt.Assert(ok && v == n, "reference-left-with-stale-value")
+		vrt.Cover("settled")
+	})
+}
